@@ -7,6 +7,7 @@ import (
 	"path/filepath"
 	"strings"
 	"testing"
+	"time"
 
 	"pgregory.net/rapid"
 
@@ -53,7 +54,17 @@ func drawC17(t *rapid.T) c17Case {
 			op.Op = "run-toolkilled"
 			op.Code = []int{9, 15, 9, 11}[rapid.IntRange(0, 3).Draw(t, "signal")]
 		case 8:
-			op.Op = "run-toolmissing"
+			switch rapid.IntRange(0, 2).Draw(t, "rare") {
+			case 0:
+				op.Op = "run-toolmissing"
+			case 1:
+				// two runs on the same binary overlap in time; the second one fails (tool exit) or is killed
+				op.Op = "run-overlap"
+				op.Code = rapid.IntRange(0, 1).Draw(t, "overlapSecond")
+			default:
+				// writes to the cache fail beyond a size limit, and the tool does not notice (as the real one)
+				op.Op = "run-fsize"
+			}
 		default:
 			op.Op = "change-binary"
 		}
@@ -250,6 +261,48 @@ func checkC17(raw json.RawMessage) (ev.Result, error) {
 				res.Classes = append(res.Classes, "toolkilled-left-cache-file")
 				leftBehind = true
 			}
+		case "run-overlap":
+			n := stopAt(text, op.Class, op.Frac)
+			a, err := rig.start(fmt.Sprintf("slow:%d:250", n))
+			if err != nil {
+				return res, ev.Inconclusivef("%v", err)
+			}
+			// let the first run write its first part, then run the second one while the first is paused
+			time.Sleep(60 * time.Millisecond)
+			m := stopAt(text, "frac", (op.Frac*7+13)%1000)
+			var rb *profRun
+			if op.Code == 0 {
+				rb, err = rig.run(fmt.Sprintf("exit:%d:3", m), false)
+			} else {
+				rb, err = rig.run(fmt.Sprintf("block:%d", m), true)
+			}
+			ra, werr := a.wait()
+			if err != nil || werr != nil {
+				return res, ev.Inconclusivef("%v %v", err, werr)
+			}
+			res.Classes = append(res.Classes, "overlapping-runs")
+			if err := verify(desc+" (first of two overlapping runs)", ra); err != nil {
+				return res, err
+			}
+			if !rb.killed {
+				if err := verify(desc+" (second of two overlapping runs)", rb); err != nil {
+					return res, err
+				}
+			}
+		case "run-fsize":
+			n := stopAt(text, op.Class, op.Frac)
+			limit := int64(n + 65)
+			if limit < 1 {
+				limit = 1
+			}
+			r, err := rig.runLimited("okignore", false, limit)
+			if err != nil {
+				return res, ev.Inconclusivef("%v", err)
+			}
+			res.Classes = append(res.Classes, "cache-write-fails-beyond-size-limit")
+			if err := verify(desc, r); err != nil {
+				return res, err
+			}
 		case "run-toolmissing":
 			r, err := rig.run("", false)
 			if err != nil {
@@ -298,7 +351,7 @@ func checkC17(raw json.RawMessage) (ev.Result, error) {
 
 func hasFault(ops []c17Op) bool {
 	for _, o := range ops {
-		if o.Op == "run-crash" || o.Op == "run-toolfail" || o.Op == "run-toolmissing" || o.Op == "run-toolkilled" {
+		if o.Op != "run-ok" && o.Op != "change-binary" {
 			return true
 		}
 	}
